@@ -169,6 +169,35 @@ pub(super) struct Slots {
     space_offer: AtomicPtr<Handover>,
 }
 
+#[cfg(arc_swap_verif)]
+impl Local {
+    pub(super) fn verif_set_generation(&self, gen: usize) {
+        self.generation.set(gen);
+    }
+    pub(super) fn verif_generation(&self) -> usize {
+        self.generation.get()
+    }
+}
+
+#[cfg(arc_swap_verif)]
+impl Slots {
+    /// (control, slot, active_addr, named addresses) read without going through the engine.
+    pub(super) fn verif_words(&self) -> (usize, usize, usize, [(&'static str, usize); 5]) {
+        (
+            self.control.peek(),
+            self.slot.0.peek(),
+            self.active_addr.peek(),
+            [
+                ("control", self.control.addr()),
+                ("helping_slot", self.slot.0.addr()),
+                ("active_addr", self.active_addr.addr()),
+                ("handover", self.handover.0.addr()),
+                ("space_offer", self.space_offer.addr()),
+            ],
+        )
+    }
+}
+
 impl Default for Slots {
     fn default() -> Self {
         Slots {
